@@ -83,6 +83,15 @@ pub fn one(req: &Value) -> Value {
     let mut trace = Vec::new();
     let mut promises: HashMap<u64, RuntimeValue> = HashMap::new();
     let guard = api::create_guard(&interp);
+    if let Some(early) = req.get("early").and_then(|v| v.as_array()) {
+        for e in early {
+            let pth = e.get(0).and_then(|v| v.as_str()).unwrap_or("");
+            let src = e.get(1).and_then(|v| v.as_str()).unwrap_or("");
+            if let Err(err) = interp.provide_module(ModulePath::new(pth.to_string()), src) {
+                trace.push(json!({"r": "provide_error", "class": crate::run::error_class(&err).0}));
+            }
+        }
+    }
     let first = if use_eval {
         interp.eval(program, Some(ModulePath::new(path.to_string())))
     } else {
@@ -143,6 +152,23 @@ pub fn one(req: &Value) -> Value {
                         let _ = api::reject_promise(&mut interp, &p, RuntimeValue::unguarded(v));
                     }
                 }
+            } else if let Some(pv) = a.get("provide").and_then(|v| v.as_array()) {
+                let pth = pv.first().and_then(|v| v.as_str()).unwrap_or("");
+                let src = pv.get(1).and_then(|v| v.as_str()).unwrap_or("");
+                if let Err(err) = interp.provide_module(ModulePath::new(pth.to_string()), src) {
+                    trace.push(json!({"r": "provide_error", "class": crate::run::error_class(&err).0}));
+                }
+            } else if let Some(names) = a.get("exports").and_then(|v| v.as_array()) {
+                let mut m = serde_json::Map::new();
+                for n in names {
+                    if let Some(ns) = n.as_str() {
+                        let v = interp.get_export(ns).and_then(|v| tsrun::js_value_to_json(&v).ok());
+                        m.insert(ns.to_string(), v.unwrap_or(json!("!none")));
+                    }
+                }
+                let mut names_all = interp.get_export_names();
+                names_all.sort();
+                trace.push(json!({"r": "exports", "values": m, "names": names_all}));
             } else if a.get("collect").is_some() {
                 interp.collect();
             }
